@@ -9,7 +9,7 @@ open Threadq_model
 let nat_of_int n = let rec go acc k = if k <= 0 then acc else go (S acc) (k-1) in go O n
 let int_of_nat n = let rec go acc = function O -> acc | S m -> go (acc+1) m in go 0 n
 
-type case = { sockets : bool; n : int; seed : int64 option; sched : (int * bool) list; prog : op list array }
+type case = { sockets : bool; evd : bool; n : int; seed : int64 option; sched : (int * bool) list; prog : op list array }
 
 let parse_choice s =
   let l = String.length s in
@@ -39,10 +39,11 @@ let parse_case line =
   | Some p ->
     (try
       let head = String.sub line 0 p and body = String.sub line (p+1) (String.length line - p - 1) in
-      let sockets = ref true and n = ref 0 and seed = ref None and sched = ref [] in
+      let sockets = ref true and evd = ref false and n = ref 0 and seed = ref None and sched = ref [] in
       List.iter (fun h ->
         let l = String.length h in
         if l >= 2 && String.sub h 0 2 = "m=" then (if h = "m=s" then sockets := true else if h = "m=w" then sockets := false else failwith "mode")
+        else if l >= 2 && String.sub h 0 2 = "k=" then (if h = "k=d" then evd := false else if h = "k=e" then evd := true else failwith "kind")
         else if l >= 2 && String.sub h 0 2 = "n=" then n := int_of_string (String.sub h 2 (l-2))
         else if l >= 5 && String.sub h 0 5 = "seed=" then (if l > 5 && h.[5] <> '-' then seed := Some (Int64.of_string ("0u" ^ String.sub h 5 (l-5))))
         else if l >= 4 && String.sub h 0 4 = "sch=" then
@@ -58,9 +59,10 @@ let parse_case line =
       let maxt = List.fold_left (fun m (t, _) -> max m t) (-1) toks in
       let n = max 1 (max !n (maxt+1)) in
       if n > 16 then failwith "n";
+      if !evd && not !sockets then failwith "event-driven needs sockets";
       let prog = Array.make n [] in
       List.iter (fun (t, o) -> prog.(t) <- prog.(t) @ [o]) toks;
-      Some { sockets = !sockets; n; seed = !seed; sched = !sched; prog }
+      Some { sockets = !sockets; evd = !evd; n; seed = !seed; sched = !sched; prog }
     with _ -> None)
 
 (* the subclass's reaction to Message <id>: the same function as react() in harness/threadq_h.cpp *)
@@ -93,7 +95,7 @@ let max_decisions = 4000
 let timeout_weight = 15L
 
 let run_case k (c : case) =
-  let st = ref (sys0 c.sockets) in
+  let st = ref (sys0 c.sockets c.evd) in
   let started = Array.make c.n false and finished = Array.make c.n false in
   let rest = Array.copy c.prog in
   let rng = ref (match c.seed with Some s -> Int64.add (Int64.mul s 0x9E3779B97F4A7C15L) 0x1234567L | None -> 0L) in
